@@ -147,7 +147,7 @@ def uuid_from_time(time_arg, node=None, clock_seq=None):
     """
     if hasattr(time_arg, 'utctimetuple'):
         seconds = int(calendar.timegm(time_arg.utctimetuple()))
-        microseconds = (seconds * 1e6) + time_arg.time().microsecond
+        microseconds = seconds * 1000000 + time_arg.time().microsecond
     else:
         microseconds = int(time_arg * 1e6)
 
